@@ -25,7 +25,7 @@ ASSUMPTIONS = [
     "rewards are floats of the listed families, incl. magnitudes up to 1e307; not every finite float",
 ]
 FLOOR = {"pulls_checked": {"quick": 20000, "thorough": 500000}, "last_checked": {"quick": 300, "thorough": 8000},
-         "intermediate_stops_probed": {"quick": 5000, "thorough": 100000}}
+         "intermediate_stops_probed": {"quick": 15000, "thorough": 300000}}
 WALL = {"quick": 1500, "thorough": 5 * 3600}
 
 
@@ -87,7 +87,7 @@ class InBox(Monitor):
 
 
 def gen_cases(rng, tier, count=None):
-    count = count or (640 if tier == "quick" else 16000)
+    count = count or (800 if tier == "quick" else 16000)
     fams = C.OPEN_FAMILIES + C.CLOSED_FAMILIES + C.HUGE_FAMILIES
     cases = []
     for i in range(count):
@@ -107,6 +107,8 @@ def gen_cases(rng, tier, count=None):
     for c in cases:
         if c["n"] <= 333 and rng.random() < 0.5:
             c["probe_stops"] = float(rng.choice([0.1, 0.3, 1.0])) if c["algo"] != "VROOM" else 0.05
+            if c["algo"] in ("T_HOO", "HCT", "VHCT", "Zooming", "SOO", "DOO", "DOO_delta", "StoSOO", "SequOOL"):
+                c["probe_stops"] = 1.0  # cheap recommendation: every stopping time T <= n is probed
             c["_cost"] *= 3
     return cases
 
